@@ -759,6 +759,10 @@ def build(run):
                 nfac = TDIM[cellname] + 1
                 facets = list(range(nfac)) if thorough else [0, nfac - 1]
                 numeric_only = fname.startswith("shape derivative") and TDIM[cellname] >= 2 and fname != "shape derivative of a volume functional"
+                # tetrahedron, forms whose symbolic equation did not discharge within 20 minutes (3x3 inverse Jacobians under Piola maps,
+                # facet geometry): compared numerically at random rational points instead, labelled bounded
+                numeric_only = numeric_only or (heavy and fname in ("covariant Piola mass", "elasticity", "interior facets", "mixed poisson (Piola)", "normal flux")
+                                                and (opts["do_apply_function_pullbacks"] or opts["do_apply_geometry_lowering"]))
                 run.add(f"end-to-end/{cellname}@{gdim}d/{fname}/{short(opts)}", end_to_end(cellname, gdim, fname, opts, facets, numeric_only),
                         kind="bounded" if numeric_only else "values", budget=300 if not thorough else 1200)
 
